@@ -245,6 +245,8 @@ def run(tier: str, seed: int) -> int:
     res.sample({"convert": "secp256r1 key with a leading zero byte in X or Y, columns 8, indentation 4 -> 64 array bytes"})
     res.notes["keys_option_space"] = "5 types x 2 encodings x 2 private x 2 public formats = 40 combinations, complete"
     drv.close()
+    from .. import reuse
+    reuse.keygen_reuse(res, PROP)
     return finish(res, st, RULE, NOTE)
 
 
